@@ -63,7 +63,10 @@ type E2Op struct {
 	D int64          `json:"d,omitempty"` // duration in ms / offset in s
 	F *sim.Fault     `json:"f,omitempty"`
 	C *sim.CrashPlan `json:"c,omitempty"`
+	X string         `json:"x,omitempty"` // extra: createJob "finalizer" = the Job is created with somebody else's finalizer
 }
+
+const foreignFinalizer = "example.com/other"
 
 type E2Trace struct {
 	Start   int64  `json:"start"`
@@ -195,6 +198,19 @@ func newE2Run(tr *E2Trace, withMonitors bool) *e2run {
 
 func (r *e2run) label(s string) { r.labels[s] = true }
 
+func (r *e2run) releaseForeignFinalizer(key string) {
+	_ = r.w.UserUpdate(sim.ResJobs, key, func(o runtime.Object) {
+		j := o.(*execution.Job)
+		var keep []string
+		for _, f := range j.Finalizers {
+			if f != foreignFinalizer {
+				keep = append(keep, f)
+			}
+		}
+		j.Finalizers = keep
+	})
+}
+
 // e2Epoch places the simulated epoch in the wall clock's future (deadlines of
 // AddAfter are recovered from wall-clock durations, see sim.Queue). Traces saved
 // before that change carry a 2022 start and are shifted by 3652 days.
@@ -266,9 +282,15 @@ func (r *e2run) apply(op E2Op) {
 				job.Spec.StartPolicy.StartAfter = &t
 			}
 		}
+		if op.X == "finalizer" {
+			job.Finalizers = []string{foreignFinalizer}
+			r.label("job-with-foreign-finalizer")
+		}
 		if _, err := w.UserCreate(sim.ResJobs, job); err != nil {
 			r.label("job-create-rejected")
 		}
+	case "releaseFinalizer": // A=job key: the other party releases its finalizer
+		r.releaseForeignFinalizer(op.A)
 	case "kill": // A=job key, D=offset seconds
 		_ = w.UserUpdate(sim.ResJobs, op.A, func(o runtime.Object) {
 			t := metav1.NewTime(w.Clock.Now().Add(time.Duration(op.D) * time.Second).Truncate(time.Second))
@@ -677,6 +699,9 @@ func genOpsOn(t *rapid.T, r *e2run, tr *E2Trace, p e2Profile, _ int) {
 				if rapid.IntRange(0, 2).Draw(t, "startAfter?") == 0 {
 					op.D = int64(rapid.SampledFrom([]int{-5, 1, 2, 10, 60, 300}).Draw(t, "startAfter"))
 				}
+				if !p.confluent && rapid.IntRange(0, 5).Draw(t, "foreignFinalizer?") == 0 {
+					op.X = "finalizer"
+				}
 				r.nJobs++
 				return op
 			})
@@ -686,6 +711,19 @@ func genOpsOn(t *rapid.T, r *e2run, tr *E2Trace, p e2Profile, _ int) {
 			if j.DeletionTimestamp == nil {
 				liveJobs = append(liveJobs, j)
 			}
+		}
+		var withForeign []*execution.Job
+		for _, j := range jobs {
+			for _, f := range j.Finalizers {
+				if f == foreignFinalizer {
+					withForeign = append(withForeign, j)
+				}
+			}
+		}
+		if len(withForeign) > 0 {
+			add("releaseFinalizer", 3, func() E2Op {
+				return E2Op{K: "releaseFinalizer", A: keyOf(rapid.SampledFrom(withForeign).Draw(t, "relfin"))}
+			})
 		}
 		if len(liveJobs) > 0 {
 			add("kill", 2, func() E2Op {
